@@ -103,6 +103,15 @@ def generator_pieces(vc):
     nch, fc, s = P['nchans'], P['fchans'], P['s']
     want = sym_if(nch >= fc, (nch - fc) // s + 1, 0)
     vc.ensure('C19/split_waterfall_generator/post/piece-count-floor((nchans-fchans)/shift)+1', eq(n, want))
+    # every yielded piece is the j-th window with the requested leading integrations: pieces appended inside the loop are covered by the
+    # loop invariant (checked when appended); pieces yielded outside it (any shortcut path) are inspected here one by one
+    if isinstance(pieces, list):
+        for j, w in enumerate(pieces):
+            sel = w.fields['selection'] if hasattr(w, 'fields') and 'selection' in w.fields else None
+            a, b = spec.piece(j)
+            ok = sel is not None and None not in (sel['f_start'], sel['f_stop'], sel['t_start'], sel['t_stop'])
+            vc.ensure('C19/split_waterfall_generator/post/piece-outside-the-loop-is-the-j-th-window-with-the-requested-integrations',
+                      And(eq(sel['f_start'], smin(a, b)), eq(sel['f_stop'], smax(a, b)), eq(sel['t_start'], 0), eq(sel['t_stop'], P['tchans_eff'])) if ok else False)
 
 
 @contract('C19', 'distribution_lengths', functions=[SO + ':get_parameter_distributions', SO + ':get_mean_distribution'])
